@@ -18,3 +18,19 @@ for p in sorted(glob.glob("/verif/seeded/*/meta.json")):
 print("| change | file | what it does | first evaluation | quick check now (violating cells: clauses) | demo with/without, pinned suite with change |")
 print("|---|---|---|---|---|---|")
 print("\n".join(rows))
+
+import sys
+if "--write" in sys.argv:
+    table = "\n".join(["| change | file | what it does | first evaluation | quick check now (violating cells: clauses) | demo with/without, pinned suite with change |", "|---|---|---|---|---|---|"] + rows)
+    missed = []
+    for p in sorted(glob.glob("/verif/seeded/*/meta.json")):
+        m = json.load(open(p))
+        if m.get("initially_missed"):
+            missed.append(f"| {m['name']} | {m['initially_missed'].replace('|', '/')} |")
+    d = open("/verif/DESIGN.md").read()
+    a, b = d.index("<!-- SEEDED-TABLE-BEGIN -->"), d.index("<!-- SEEDED-TABLE-END -->")
+    d = d[:a] + "<!-- SEEDED-TABLE-BEGIN -->\n" + table + "\n" + d[b:]
+    d = re.sub(r"(\| first missed \| what the check lacked -> what was added \|\n\|---\|---\|\n)(?:\| C.*\n)*(?:<!-- MISSED-TABLE -->\n)?", lambda mo: mo.group(1) + "\n".join(missed) + "\n<!-- MISSED-TABLE -->\n", d)
+    open("/verif/DESIGN.md", "w").write(d)
+    open("/verif/seeded/README.md", "w").write("# Seeded changes (see DESIGN.md section 7)\n\n" + table + "\n")
+    print("DESIGN.md and seeded/README.md updated:", len(rows), "changes,", len(missed), "initial misses")
